@@ -194,6 +194,52 @@ def oracle(c, hres, sl):
     return None
 
 
+def decisive(de):
+    """a slice error that does not come from running out of input: the decoder saw enough bytes to refuse"""
+    return de is not None and de.startswith('err ') and 'UnexpectedLength' not in de and 'FillWhole' not in de
+
+
+def readahead_stage(cfg, exe, cases, sl, stats, failures):
+    """Bytes pulled on a FAILING decode.  The model's `pulled` exists for successes only, so refusals are judged on the
+    implementation alone: when the plain-slice decode refuses the input for a reason other than running out of bytes,
+    the decision rests on a prefix of the input, so the same input followed by 64 more bytes must be refused in the
+    same way having pulled the same number of bytes from the reader.  A decoder that drains the reader or reads
+    ahead before reporting a bad tag / bad UTF-8 / a zero NonZero pulls more in the second run."""
+    seen = {}
+    for c in cases:
+        k = (c['tid'], c['data'])
+        if c['fail'] is None and k not in seen and decisive(sl[k][0]):
+            seen[k] = c
+    junk = bytes(range(0x40, 0x80)).hex()
+    lines, meta = [], []
+    for i, ((tid, data), c) in enumerate(seen.items()):
+        n = len(data) // 2
+        for tag, d, sch in (('a', data, '-'), ('b', data + junk, '-'), ('c', data + junk, ','.join(['d1'] * min(n + 8, 400)))):
+            lines.append(case_line('ra%d%s' % (i, tag), 'decr', tid, sexp(c['t']), 'deserialize_reader', hx(d), sch))
+        meta.append((i, tid, data, c))
+    res = run_cases(exe, lines)
+    stats['evaluations'] += len(lines)
+    stats['refusals_checked_for_read_ahead'] = stats.get('refusals_checked_for_read_ahead', 0) + len(meta)
+    for i, tid, data, c in meta:
+        a, b, d1 = (split_res(res.get('ra%d%s' % (i, t))) for t in 'abc')
+        de = sl[(tid, data)][0]
+        why = None
+        if a[0] != de:
+            why = 'slice gives %s, reader gives %s' % (short(de), short(a[0]))
+        elif b[0] != de or d1[0] != de:
+            why = 'refused as %s, but as %s / %s when 64 more bytes follow' % (short(de), short(b[0]), short(d1[0]))
+        elif a[1] is None or b[1] != a[1] or d1[1] != a[1]:
+            why = ('refusal %s after pulling %s bytes of %d; with 64 more bytes behind the same input %s are pulled (everything on offer) '
+                   'and %s (one byte per call)' % (short(de), a[1], len(data) // 2, b[1], d1[1]))
+        elif a[1] > len(data) // 2:
+            why = 'pulled %s of %d bytes' % (a[1], len(data) // 2)
+        if why:
+            failures.append({'class': 'reader-dependence', 'key': 'readahead %s %s' % (sexp(c['t']), short(hx(data), 80)),
+                             'what': '%s [%s, deserialize_reader, input %s]' % (why, rust(c['t']), short(hx(data), 80)), 'cfg': cfg,
+                             'type': sexp(c['t']), 'data': short(hx(data), 400),
+                             'replay_cmd': "printf '%s\\n' | %s" % (short(case_line('r', 'decr', tid, sexp(c['t']), 'deserialize_reader', hx(data + junk), '-'), 600), exe)})
+
+
 def run_cfg(cfg, exe, driver, tier, seed, stats, disagreements, failures, oracle_only=False):
     rng = random.Random(seed * 7 + (1 if is_shim(cfg) else 0) + (2 if CONFIGS[cfg][1] else 0))
     per_type = 2 if tier == 'quick' else 5
@@ -228,6 +274,7 @@ def run_cfg(cfg, exe, driver, tier, seed, stats, disagreements, failures, oracle
             disagreements.append(dict(rec, model=short(m, 300), what='decr %s %s data %s schedule %s: impl %s, model %s [%s]' % (
                 rust(c['t']), c['entry'], short(hx(c['data']), 60), short(c['sched'], 80), short(h, 120), short(m, 120), cfg)))
     stats['evaluations'] += len(cases) + 2 * len(sl)
+    readahead_stage(cfg, exe, cases, sl, stats, failures)
     stats['families'][cfg] = dict(fam)
     for k, v in classes.items():
         stats['result_classes'][k] = stats['result_classes'].get(k, 0) + v
